@@ -1,8 +1,10 @@
 (** C11 — Authentication and user lifecycle follow the stored credentials.
     Statements only; proofs are in [Proofs/AuthProofs.v]. *)
 From stdpp Require Import gmap strings.
+From RecordUpdate Require Import RecordSet.
+Import RecordSetNotations.
 From EV Require Import Base.Str Model.Reply Model.TableTypes Model.Acl Model.AclWorld Spec.SpecAcl.
-From EV Require Import Proofs.AclProofs Proofs.AuthProofs.
+From EV Require Import Proofs.AclProofs Proofs.AuthProofs Proofs.AclNormal.
 Local Open Scope string_scope.
 
 (** AUTH user password (and HELLO ... AUTH user password, which calls the same function with the
@@ -75,9 +77,26 @@ Theorem C11_default_undeletable :
   forall a names, find_user (delete_users a names) "default" = find_user a "default".
 Proof. exact default_undeletable. Qed.
 
-(** ACL SAVE then ACL LOAD REPLACE gives back the same state (file serialisation trusted as the
-    identity on the records; the table normalised with distinct names, as every edit leaves it). *)
+(** [Normalise] is idempotent: for EVERY user record (any rule lists, aliases, duplicates, "*" mixed
+    with other entries, nokeys, any passwords) a second application changes nothing. *)
+Theorem C11_normalise_idempotent : forall u, normalise (normalise u) = normalise u.
+Proof. exact normalise_idempotent. Qed.
+
+(** Hence every state the server can reach - [NewACL] at start-up (any config file), then any sequence
+    of RegisterConnection, AUTH / HELLO, SETUSER, DELUSER, LOAD (merge or replace) and SAVE - holds a
+    table of normalised records at distinct, allocated addresses. *)
+Theorem C11_reachable_table_normal : forall a, reachable a -> table_ok a.
+Proof. exact reachable_normal. Qed.
+
+(** ACL SAVE then ACL LOAD REPLACE gives back the same state, for every reachable state whose user
+    names are distinct (a config file may name a user twice: then LOAD folds the second record into the
+    first).  File serialisation is trusted as the identity on the records. *)
 Theorem C11_save_load_id :
+  forall a, reachable a -> NoDup (map u_name (table a)) -> acl_load (acl_save a) "replace" = Some (acl_save a).
+Proof. exact save_load_id_reachable. Qed.
+
+(** The earlier form, for any state (reachable or not) that satisfies the invariant. *)
+Theorem C11_save_load_id_invariant :
   forall a, table_normal a -> acl_load (acl_save a) "replace" = Some (acl_save a).
 Proof. exact save_load_id. Qed.
 
@@ -90,6 +109,9 @@ Print Assumptions C11_deleted_cannot_act.
 Print Assumptions C11_deleted_cannot_auth.
 Print Assumptions C11_default_undeletable.
 Print Assumptions C11_save_load_id.
+Print Assumptions C11_normalise_idempotent.
+Print Assumptions C11_reachable_table_normal.
+Print Assumptions C11_save_load_id_invariant.
 
 (** Non-vacuity. *)
 Definition sha_ex (s : string) : string := if String.eqb s "pw2" then "d2" else "".
@@ -109,3 +131,17 @@ Proof. vm_compute. reflexivity. Qed.
 Example ex_spellings :
   let u := normalise (update_user (create_user "x") ["x"; "+@all"; "-all"]) in (u_icat u, u_icmd u, u_xcmd u) = (["*"], [], ["*"]).
 Proof. vm_compute. reflexivity. Qed.
+(** the hypotheses of [C11_save_load_id] are met: a reachable state with two users *)
+Example ex_reachable : reachable ex_a /\ NoDup (map u_name (table ex_a)).
+Proof.
+  split; [apply r_set_user, r_register, r_new|]. vm_compute. repeat constructor; simpl; intuition discriminate.
+Qed.
+(** a record that is not normalised, and what [Normalise] makes of it (twice) *)
+Example ex_normalise :
+  let u := create_user "x" <| u_icat := ["write"; "allCategories"; "read"; "write"] |> <| u_xcmd := ["allCommands"; "*"] |>
+                           <| u_rkeys := ["b"; "a"; "b"] |> <| u_pws := [Pw "SHA256" "d"; Pw "plaintext" "p"] |> in
+  normalise u <> u /\
+  (u_icat (normalise u), u_icmd (normalise u), u_xcmd (normalise u), u_rkeys (normalise u), u_wkeys (normalise u), u_pws (normalise u))
+    = (["read"; "write"], [], ["*"], ["a"; "b"], ["*"], [Pw "plaintext" "p"; Pw "SHA256" "d"]) /\
+  normalise (normalise u) = normalise u.
+Proof. vm_compute. split; [discriminate|]. split; reflexivity. Qed.
